@@ -739,13 +739,51 @@ static void vf_native(void)
                 canaries=[{"fn": f.name, "rx": r"int i = 0, n", "rp": "int i = 1, n", "expect": r"VH_hasUndefined\.(postcondition|loop_invariant_base)"}])
 
 
+def unit_cumul(nmax=6):
+    pre = BOOL + "#define NMAX %d\n#define VBOUND (2147483647 / NMAX)\n" % nmax
+    tot = lambda upto: " + ".join("((%d < (%s)) ? W_ivec[%d] : 0)" % (k, upto, k) for k in range(nmax))
+    contract = "\n".join([
+        "__CPROVER_requires(0 <= vec_size && vec_size <= NMAX && vec == W_ivec)",
+        # every partial sum is representable (machine arithmetic is then the mathematical one)
+        "__CPROVER_requires(%s)" % AND("(-VBOUND <= W_ivec[%d] && W_ivec[%d] <= VBOUND)" % (k, k) for k in range(nmax)),
+        "__CPROVER_assigns()",
+        "__CPROVER_ensures(__CPROVER_return_value == %s)" % tot("vec_size"),
+    ])
+    loop = "\n".join([
+        "__CPROVER_assigns(vk, total)",
+        "__CPROVER_loop_invariant(0 <= vk && vk <= vec_size)",
+        "__CPROVER_loop_invariant(total == %s)" % tot("vk"),
+        "__CPROVER_decreases(vec_size - vk)",
+    ])
+    f = Fn("VectorHelper::cumul(VectorInt)", "src/Basic/VectorHelper.cpp", r"^int VectorHelper::cumul\(const VectorInt& vec\)\s*$",
+           csig="int VH_cumul(const int* vec, int vec_size)", contract=contract, loops={1: loop}, nloops=1,
+           rewrites=[(r"for \(const auto &v : vec\)\s*\n(\s*)\{", r"for (int vk = 0; vk < vec_size; vk++)\n\1{ const int v = vec[vk];", 1),
+                     (r"int total = 0\.;", "int total = 0;", 1)])
+    h = "\nvoid vf_harness(void)\n{\n  vf_havoc_inputs();\n  VH_cumul(W_ivec, W_n);\n  VF_REACH();\n}\n"
+    native = r"""
+static void vf_native(void)
+{
+  if (!(0 <= W_n && W_n <= NMAX)) exit(77);
+  for (int k = 0; k < NMAX; k++) if (W_ivec[k] < -VBOUND || W_ivec[k] > VBOUND) exit(77);
+  long e = 0; for (int k = 0; k < W_n; k++) e += W_ivec[k];
+  __CPROVER_assert(VH_cumul(W_ivec, W_n) == e, "the sum of the elements");
+}
+"""
+    return Unit("C11.VH.cumul", [f], prelude=pre, harness=h, native=native, pre_inputs=BOOL, defines={"NMAX": nmax},
+                inputs=[("int", "W_ivec", "NMAX"), ("int", "W_n")], enforce="VH_cumul", backends=("minisat", "cadical"), timeout=600, fallback_unwind=nmax + 2,
+                claim="VH::cumul(VectorInt) returns the sum of the elements, each added once, without signed overflow; nothing written; loop closed by invariant (length <= %d)" % nmax,
+                assumptions=["at most %d elements (quantifier range)" % nmax, "|element| <= INT_MAX / %d so that every partial sum is representable" % nmax,
+                             "const VectorInt& -> (const int*, int); range-for rewritten to an index loop; the initialiser '0.' written '0' (same value)"],
+                canaries=[{"fn": f.name, "rx": r"total \+= v;", "rp": "total = v;", "expect": r"VH_cumul\.(postcondition|loop_invariant_step)"}])
+
+
 def units(tier):
-    return [unit_dense_dims(), unit_sparse_dims(), unit_normmatrix(), unit_where("Minimum"), unit_where("Maximum"), unit_where_element(), unit_extremum("maximum"), unit_extremum("minimum"), unit_extremum_vv("maximum"), unit_extremum_vv("minimum"), unit_extremum_int("maximum"), unit_extremum_int("minimum"), unit_is_sorted(), unit_is_constant("double"), unit_is_constant("int"), unit_count("countUndefined"), unit_count("countDefined"), unit_has_undefined()]
+    return [unit_dense_dims(), unit_sparse_dims(), unit_normmatrix(), unit_where("Minimum"), unit_where("Maximum"), unit_where_element(), unit_extremum("maximum"), unit_extremum("minimum"), unit_extremum_vv("maximum"), unit_extremum_vv("minimum"), unit_extremum_int("maximum"), unit_extremum_int("minimum"), unit_is_sorted(), unit_is_constant("double"), unit_is_constant("int"), unit_count("countUndefined"), unit_count("countDefined"), unit_has_undefined(), unit_cumul()]
 
 
 META = {
     "level": "other",
-    "explanation": "(the two dimension units and the fifteen VH units (whereMinimum, whereMaximum, whereElement, isSorted, isConstant (double, int), countUndefined, countDefined, hasUndefined, maximum, minimum, their vector-of-vectors and VectorInt forms) are unbounded proofs, normMatrix.terms is a bounded stand-in, hence level 'other') Shape/index contracts of the Eigen-backed dense kernels and sparse product kernels for every shape; extremum-rank contracts of VH::whereMinimum / whereMaximum (loop invariant); numerical values, sparse storage, decompositions and thread-count independence are not decidable here.",
+    "explanation": "(the two dimension units and the sixteen VH units (whereMinimum, whereMaximum, whereElement, isSorted, isConstant (double, int), countUndefined, countDefined, hasUndefined, cumul, maximum, minimum, their vector-of-vectors and VectorInt forms) are unbounded proofs, normMatrix.terms is a bounded stand-in, hence level 'other') Shape/index contracts of the Eigen-backed dense kernels and sparse product kernels for every shape; extremum-rank contracts of VH::whereMinimum / whereMaximum (loop invariant); numerical values, sparse storage, decompositions and thread-count independence are not decidable here.",
     "trusted_base": ["CBMC 6.11 C++ front end", "Eigen (numerics)", "stub classes"],
     "assumptions": [],
     "not_covered": ["values computed by Eigen/csparse", "csparse storage of MatrixSparse and its non-product methods", "Cholesky / eigen-decomposition", "thread-count independence (no thread model)",
